@@ -106,6 +106,14 @@ pub struct ME {
 pub type Model = BTreeMap<u32, ME>;
 
 thread_local! {
+    /// foreign work/progress failure of the case that finished last (see `Ctx::judge`)
+    static DEFERRED: std::cell::RefCell<Option<Fail>> = const { std::cell::RefCell::new(None) };
+}
+pub fn take_deferred() -> Option<Fail> {
+    DEFERRED.with(|d| d.borrow_mut().take())
+}
+
+thread_local! {
     /// states an entry legitimately had during the current operation (intermediate states of
     /// multi-step operations); used by the fault oracle
     static LEGIT: std::cell::RefCell<Vec<(u32, ME)>> = const { std::cell::RefCell::new(Vec::new()) };
@@ -311,6 +319,9 @@ pub struct Stats {
     /// bit p set: this case is non-trivial for property p
     pub nontrivial: u32,
     pub excluded_known: u64,
+    /// calls after which the cursor was short although another property was in focus
+    pub soft_cursor_desync: u64,
+    pub deferred_foreign: u64,
 }
 
 impl Stats {
@@ -340,6 +351,8 @@ impl Stats {
             *self.by_op.entry(k).or_insert(0) += v;
         }
         self.excluded_known += o.excluded_known;
+        self.soft_cursor_desync += o.soft_cursor_desync;
+        self.deferred_foreign += o.deferred_foreign;
     }
 }
 
@@ -364,6 +377,10 @@ pub struct Ctx<F: Fam> {
     pub big: bool,
     pub since_full: [usize; 2],
     pub r: usize,
+    /// the property this run decides (None: strict, every oracle ends the case)
+    pub focus: Option<Prop>,
+    /// first failure of a work/progress oracle that the focused property does not own
+    pub deferred: Option<Fail>,
 }
 
 pub const FULL_EVERY_SMALL: usize = 1;
@@ -424,6 +441,8 @@ impl<F: Fam> Ctx<F> {
             big: false,
             since_full: [0, 0],
             r: griddle::verif::R,
+            focus: None,
+            deferred: None,
         }
     }
 
@@ -532,6 +551,10 @@ impl<F: Fam> Ctx<F> {
             KeySel::InMain(i) => match self.scan_class(s, i, false) {
                 Some(k) => k,
                 None => self.resolve(s, KeySel::Existing(i)),
+            },
+            KeySel::NextMoved(i) => match self.slots[s].map.verif_cursor_nth(i as usize % 20).map(|k| k.k()) {
+                Some(k) => k,
+                None => self.resolve(s, KeySel::InOld((i as u16) << 8)),
             },
             KeySel::Any(k) => k % self.universe,
             KeySel::Absent(k) => {
@@ -731,7 +754,41 @@ impl<F: Fam> Ctx<F> {
     // per-call oracles (C02, C03, C04, C05)
     // -----------------------------------------------------------------------------------------
 
+    /// Per-call oracles. When a property is in focus, failures of the work / progress oracles that
+    /// it does not own do not end the case (they are counted and reported as foreign): ending it
+    /// would hide the functional consequences the focused property owns. Safety-critical findings
+    /// (cursor ahead of the table, capacity below len, double free) always end the case.
     pub fn judge(&mut self, s: usize, obs: &Obs, f: &Facts) -> Result<(), Fail> {
+        match self.judge_inner(s, obs, f) {
+            Err(fl) => {
+                const DEFERRABLE: [&str; 22] = [
+                    "alloc-during-resize", "old-table-survives-clear", "old-accounting", "carry-quota", "second-old-table",
+                    "old-table-not-freed", "old-table-dropped-early", "resize-started-by-non-insert", "carry-quota-at-growth",
+                    "all-at-once-growth", "episode-too-long", "three-tables", "table-leak", "hash-bound-key-adding",
+                    "alloc-bound-key-adding", "hash-bound-lookup", "alloc-in-lookup", "moved-in-lookup", "hash-in-reserve",
+                    "alloc-bound-reserve", "work-in-bulk", "hash-bound-extend",
+                ];
+                let defer = matches!(self.focus, Some(p) if !fl.has(p)) && !self.post_fault && DEFERRABLE.contains(&fl.oracle);
+                if defer {
+                    self.stats.deferred_foreign += 1;
+                    if self.deferred.is_none() {
+                        self.deferred = Some(fl);
+                    }
+                    // the bookkeeping of the progress oracle is no longer meaningful for this map
+                    self.meta[s].episode = None;
+                    let h = obs.post.hook;
+                    self.meta[s].live = (h.main_buckets > 1) as i64 + h.old.is_some() as i64;
+                    self.meta[s].linger_ok = h.old.map_or(false, |o| o.len == 0);
+                    Ok(())
+                } else {
+                    Err(fl)
+                }
+            }
+            ok => ok,
+        }
+    }
+
+    fn judge_inner(&mut self, s: usize, obs: &Obs, f: &Facts) -> Result<(), Fail> {
         let r = self.r;
         let pre = &obs.pre;
         let post = &obs.post;
@@ -740,9 +797,18 @@ impl<F: Fam> Ctx<F> {
         // ---- C05: cached cursor agrees with the old table
         if let Some(o) = post.hook.old {
             if o.cursor_remaining != o.len {
-                fail!(self, [C05], "cursor-desync",
-                    "cached old-table cursor believes {} elements remain, old table holds {}",
-                    o.cursor_remaining, o.len);
+                // When another property is being checked and the cursor is merely *short* (it will
+                // leave elements behind, but cannot over-read), the history goes on, so that the
+                // consequences owned by that property (lost elements, short iterators, leaks) can
+                // show; the desync itself is C05's to report.
+                let soft = matches!(self.focus, Some(p) if p != C05 && p != C07) && o.cursor_remaining < o.len && !self.post_fault;
+                if soft {
+                    self.stats.soft_cursor_desync += 1;
+                } else {
+                    fail!(self, [C05], "cursor-desync",
+                        "cached old-table cursor believes {} elements remain, old table holds {}",
+                        o.cursor_remaining, o.len);
+                }
             }
         }
         // ---- C04: capacity() >= len()
@@ -1150,6 +1216,8 @@ impl<F: Fam> Ctx<F> {
     // -----------------------------------------------------------------------------------------
 
     pub fn finish(mut self) -> Result<Stats, Fail> {
+        let deferred = self.deferred.take();
+        DEFERRED.with(|d| *d.borrow_mut() = deferred);
         self.op_name = "teardown";
         self.op_index = usize::MAX;
         for s in 0..2 {
